@@ -19,7 +19,9 @@ Record obs := {
 Definition mk_obs a lo t lb ats pe os : obs :=
   {| ob_acc := a; ob_lastobs := lo; ob_total := t; ob_lastby := lb; ob_atts := ats; ob_pending := pe; ob_oracles := os |}.
 
-Definition mk_cfg (thr mul frac : Z) : cfg := {| c_threshold := thr; c_multiple := mul; c_slashfrac := frac |}.
+Definition mk_cfg (thr mul frac : Z) (unbond_del cursor_clamp : bool) : cfg :=
+  {| c_threshold := thr; c_multiple := mul; c_slashfrac := frac;
+     c_unbond_del := unbond_del; c_cursor_clamp := cursor_clamp |}.
 
 (* light observation (long histories print the full projection only every few operations):
    lists left empty and ob_acc + 10 *)
@@ -107,7 +109,7 @@ Definition mk_tx_case c p isbytes sg w i valid n cl park ms acc votes : tx_case 
 
 Definition tx_matches (unpacked chk : bool) (x : tx_case) : bool :=
   let s := run (x_cfg x) init (x_prefix x) in
-  let '(s', r) := deliver_claim unpacked chk s (x_signers x) (x_tx x) in
+  let '(s', r) := deliver_claim (x_cfg x) unpacked chk s (x_signers x) (x_tx x) in
   let votes := match aget keq (t_nonce (x_tx x), t_cls (x_tx x)) (atts s') with
                | Some a => a_votes a | None => [] end in
   Bool.eqb (match r with Ok => true | _ => false end) (x_acc x) && list_eqb Z.eqb votes (x_votes x).
